@@ -1023,7 +1023,33 @@ package rosmar
 //@   ensures [C03,C10:purge.onetxn]           oneTxn() && sqlAllInTxn() && lockedThroughout("bucket.mutex")
 //@   ensures [C20:purge.unlocked]             any: nolocks()
 //@
+// Collections are found by scope AND name, created under exactly the requested name, cached under that name, and the
+// object handed out carries the id of that row (every document statement is scoped by this id, C11).
+//@ fn (*Bucket)._getCollectionID
+//@   modular in=getOrCreateCollection
+//@   ensures [C11:getCollectionID.by-scope-and-name] stmtCount("select", "collections") <= 1 && (stmtCount("select", "collections") == 1 ==> stmtParamOf("select", "collections", 0, "where:scope") == scope && stmtParamOf("select", "collections", 0, "where:name") == collection)
+//@   ensures [C11:getCollectionID.reads-only] db == old(db)
+//@ fn (*Bucket)._createCollection
+//@   modular in=getOrCreateCollection
+//@   flag modifies=db
+//@   ensures [C11:createCollection.inserts-this-name] stmtCount("insert", "collections") <= 1 && (stmtCount("insert", "collections") == 1 ==> stmtParamOf("insert", "collections", 0, "scope") == name.Scope && stmtParamOf("insert", "collections", 0, "name") == name.Collection)
+//@   ensures [C11:createCollection.one-statement] count("sql") <= 1 && (result1 == nil ==> count("sql") == 1)
+//@   ensures [C11:createCollection.id-of-the-new-row] result1 == nil ==> result0 != nil && result0.id == lastinsertid() % 4294967296 && result0.DataStoreNameImpl == name && result0.bucket == bucket
+//@   ensures [C11:createCollection.cached-under-its-name] result1 == nil ==> haskey(bucket.collections, name) && bucket.collections[name] == result0
+//@ fn (*Bucket).getOrCreateCollection
+//@   ensures [C11:getOrCreateCollection.cached-first] old(haskey(bucket.collections, name)) ==> count("sql") == 0 && result1 == nil && result0 == old(bucket.collections[name])
+//@   ensures [C11:getOrCreateCollection.looks-up-this-name] !old(haskey(bucket.collections, name)) ==> count("call:Bucket._getCollectionID") == 1 && callarg("Bucket._getCollectionID", 1) == name.Scope && callarg("Bucket._getCollectionID", 2) == name.Collection
+//@   ensures [C11:getOrCreateCollection.existing-id] !old(haskey(bucket.collections, name)) && count("call:Bucket._getCollectionID") == 1 && callret("Bucket._getCollectionID", 1) == nil ==> result1 == nil && result0 != nil && result0.id == callret("Bucket._getCollectionID", 0) && result0.DataStoreNameImpl == name && count("call:Bucket._createCollection") == 0
+//@   ensures [C11:getOrCreateCollection.creates-only-if-asked] count("call:Bucket._createCollection") >= 1 ==> orCreate && callarg("Bucket._createCollection", 1) == name
+//@   ensures [C11:getOrCreateCollection.missing] !old(haskey(bucket.collections, name)) && !orCreate && count("call:Bucket._getCollectionID") == 1 && callret("Bucket._getCollectionID", 1) != nil ==> result1 != nil && result0 == nil
+//@   ensures [C20:getOrCreateCollection.unlocked] any: nolocks()
+//@ fn (*Bucket).DropDataStore
+//@   ensures [C11:DropDataStore.delegates] count("call:Bucket.dropCollection") <= 1 && (count("call:Bucket.dropCollection") == 1 ==> callarg("Bucket.dropCollection", 0) == bucket && result == callret("Bucket.dropCollection", 0))
+//@
 //@ fn (*Bucket).dropCollection
+//@   modular in=DropDataStore
+//@   flag modifies=db
+//@   ensures [C11:dropCollection.by-scope-and-name] stmtCount("delete", "collections") <= 1 && (stmtCount("delete", "collections") == 1 ==> stmtParamOf("delete", "collections", 0, "where:scope") == name.Scope && stmtParamOf("delete", "collections", 0, "where:name") == name.Collection)
 //@   ensures [C11:dropCollection.default-refused] name.Scope == "_default" && name.Collection == "_default" ==> result != nil && db == old(db)
 //@   ensures [C11:dropCollection.frame]    forall o: DocId :: o.coll != collid(name.Scope, name.Collection) ==> docAt(o) == old(docAt(o))
 //@   ensures [C11,C16:dropCollection.stops-own-feeds] count("call:Collection.close") <= 1 && count("mapdelete") <= 1
